@@ -70,5 +70,17 @@ Varies(reg, tr) ==
       [] tr.k = "enum"   -> Cardinality(ExportedOf(reg, tr.type)) > 1
       [] tr.k \in {"int", "float", "bool", "string", "time", "slice", "map", "bytes"} -> TRUE
       [] tr.k = "array"  -> tr.elems # <<>> /\ Varies(reg, tr.elems[1])
+      [] tr.k = "ptr"    -> TRUE          \* nil or not, and whatever it points to
       [] OTHER -> FALSE
+
+(* every component of a struct value comes from its own call of the random function of the component's
+   type: over repeated calls each component whose type admits more than one value must vary as well *)
+FrozenComponents(reg, values) ==
+    LET t1 == values[1].tree IN
+    IF t1.k # "struct" \/ Len(values) < 8 THEN {}
+    ELSE {i \in 1..Len(t1.fields) :
+            /\ t1.fields[i].data # "ignore" /\ t1.fields[i].v.k # "hidden"
+            /\ Varies(reg, t1.fields[i].v)
+            /\ \A k \in 1..Len(values) : values[k].tree.k = "struct" /\ Len(values[k].tree.fields) = Len(t1.fields)
+            /\ Cardinality({values[k].tree.fields[i].v : k \in 1..Len(values)}) < 2}
 =============================================================================
